@@ -98,6 +98,9 @@ type ledgerEntry struct {
 	// parameter plus a non-negative constant (induction over the call chain)
 	CallersParamNonNeg int `json:"callers_param_nonneg,omitempty"`
 	Assume   bool     `json:"assumption,omitempty"`
+	// SchemaSlots: decoder (or encoder) name -> slot tokens that must occur in its CURRENT E2 schema, e.g.
+	// {"dhcpv6.RelayMessageFromBytes": ["16:PeerAddr"]}: the field is filled by a plain 16-byte read
+	SchemaSlots map[string][]string `json:"schema_slots,omitempty"`
 }
 
 type ledgerFile struct {
@@ -464,14 +467,20 @@ func (e *e4Engine) open(in ssa.Instruction, key, detail string) {
 		if le.CallersParamNonNeg > 0 {
 			missing = append(missing, e.callersParamNonNeg(in.Parent(), le.CallersParamNonNeg)...)
 		}
+		if len(le.SchemaSlots) > 0 {
+			missing = append(missing, e.schemaSlotsMissing(le.SchemaSlots)...)
+		}
 		if len(missing) == 0 {
 			by := "ledger"
-			if le.Assume || len(le.Requires)+len(le.CallersAny)+le.CallersParamNonNeg == 0 {
+			if le.Assume || len(le.Requires)+len(le.CallersAny)+le.CallersParamNonNeg+len(le.SchemaSlots) == 0 {
 				by = "ledger (reasoned, no machine-checked fact)"
 			} else {
 				by = "ledger + guard facts " + strings.Join(le.Requires, " ∧ ")
 				if len(le.CallersAny) > 0 {
 					by += " + at every call site one of {" + strings.Join(le.CallersAny, " | ") + "}"
+				}
+				if len(le.SchemaSlots) > 0 {
+					by += fmt.Sprintf(" + wire-schema slots %v present in the current extraction", le.SchemaSlots)
 				}
 				if le.CallersParamNonNeg > 0 {
 					by += fmt.Sprintf(" + every call site passes a non-negative value for parameter %d (constant, or the caller's own such parameter + constant)", le.CallersParamNonNeg)
@@ -483,6 +492,46 @@ func (e *e4Engine) open(in ssa.Instruction, key, detail string) {
 		detail += "; ledger entry exists but its guard fact(s) no longer hold: " + strings.Join(missing, ", ")
 	}
 	e.c.R.Violation(e.rule, key, e.c.P.ipos(in), detail)
+}
+
+// schemaSlotsMissing: see ledgerEntry.SchemaSlots
+func (e *e4Engine) schemaSlotsMissing(req map[string][]string) []string {
+	var missing []string
+	encs, decs := codecFuncs(e.c.P)
+	for name, slots := range req {
+		var f *ssa.Function
+		enc := false
+		for _, g := range decs {
+			if shortName(g) == name {
+				f = g
+			}
+		}
+		for _, g := range encs {
+			if shortName(g) == name {
+				f, enc = g, true
+			}
+		}
+		if f == nil {
+			missing = append(missing, "codec "+name+" not found")
+			continue
+		}
+		ns, und := e2Extract(e.c, f, enc)
+		if len(und) > 0 {
+			missing = append(missing, "schema of "+name+" not extractable: "+und[0])
+			continue
+		}
+		have := map[string]bool{}
+		for _, t := range strings.Fields(e2Str(ns)) {
+			have[t] = true
+		}
+		for _, sl := range slots {
+			if !have[sl] {
+				missing = append(missing, "slot "+sl+" not in the schema of "+name+" ("+e2Str(ns)+")")
+			}
+		}
+	}
+	sort.Strings(missing)
+	return missing
 }
 
 // callersParamNonNeg: see ledgerEntry.CallersParamNonNeg
